@@ -3,6 +3,7 @@
 use serde_json::{json, Value};
 use std::time::{Duration, Instant};
 
+mod analyze;
 mod corpus;
 mod iter;
 mod search;
@@ -30,6 +31,7 @@ fn family(name: &str) -> Option<Box<dyn Family>> {
     match name {
         "state_ops" => Some(Box::new(state_ops::StateOps)),
         "iter" => Some(Box::new(iter::Iter)),
+        "analyze" => Some(Box::new(analyze::Analyze)),
         "search" => Some(Box::new(search::Search)),
         _ => None,
     }
